@@ -281,6 +281,7 @@ class CoherenceMon(Monitor):
             self.rows += check_records(inc.world, self.prop, f"{where}:batch{t}", inc.world.target, h["u"][t], h["x"][t], h["logl"][t], bl, self.keys)
 
     def on_run_end(self, inc, s, n_total, phase):
+        self.whole_history(inc, s.state, "run_end")  # a later step must not have altered records stored earlier
         self.readable(inc, s, "run_end")
 
     def on_readonly(self, inc, s, where):
@@ -367,7 +368,7 @@ class PosteriorMon(Monitor):
             comp = l[:, None] * bt[None, :] - zt[None, :] + (np.log(nt) - np.log(nt.sum()))[None, :]
             return (l - refmis._lse(comp, axis=1) - tot).astype(float)
 
-        trims = [(0.99, 1000)] + ([(e, b) for e in (0.5, 0.9, 0.999) for b in (10, 100, 1000)] if self.full else [(0.9, 100)])
+        trims = [(0.99, 1000)] + ([(e, b) for e in (0.5, 0.9, 0.999) for b in (10, 100, 1000)] + [(0.01, 1000), (0.9999, 1000), (0.99, 1), (0.99, 2)] if self.full else [(0.9, 100)])
         flags = list(itertools.product([False, True], repeat=4))
         for (res, trim, rb, rl) in flags:
             tl = trims if trim else [(0.99, 1000)]
@@ -423,7 +424,7 @@ class ModesMon(Monitor):
         self.k_ge2 = 0
 
     def on_modes_fit(self, inc, how, u, weights, labels, ms):
-        self.last_fit = dict(how=how, labels=None if labels is None else np.asarray(labels).copy(), ms=ms, n=len(u))
+        self.last_fit = dict(how=how, labels=None if labels is None else np.asarray(labels).copy(), ms=ms, n=len(u), u=np.asarray(u).copy())
         # "that mode was fitted from the particles of that same cluster": any location estimate computed from a
         # cluster's points (median, weighted mean, EM fixed point) lies inside their bounding box - exact necessary condition
         u = np.asarray(u)
@@ -496,6 +497,23 @@ class ModesMon(Monitor):
             if missing:
                 w.probe("modes.label_missing_from_training_set")
                 w.violation(self.prop, "label.no_training_points", f"active particles carry label(s) {missing} for which no training point was available (modes fitted for labels {uniq.tolist()})", **keys)
+            # the same model must label the training pool and the active particles: an active particle that is one of the
+            # training points (resampling copies pool rows) carries the label that point had when the modes were fitted
+            tl = {}
+            for row, lab in zip(lf["u"], lf["labels"]):
+                tl.setdefault(row.tobytes(), int(lab))
+            au = np.asarray(kw["u"])
+            n_match = n_bad = 0
+            for row, lab in zip(au, a):
+                t = tl.get(np.ascontiguousarray(row).tobytes())
+                if t is not None:
+                    n_match += 1
+                    n_bad += int(t != int(lab))
+            if n_match:
+                w.probe("modes.active_particles_matched_to_training_points", n_match)
+            if n_bad:
+                w.violation(self.prop, "label.other_clustering", f"{n_bad} of {n_match} active particles that are training points carry a different label than the one they had when the mode statistics were fitted "
+                            f"(labels come from a different model / normalisation than the statistics)", **keys)
             for j, lab in enumerate(uniq.tolist()):
                 if lab != j and np.any(a == lab):
                     w.probe("modes.rank_ne_label")
